@@ -65,6 +65,8 @@ def replay(prop, res, f, repo, index, outbase, gen, sp, max_n=3, timeout=240):
     m_edges = re.match(r'^(L[DU]G_\w+?)_Edges(_EIt)?__(\w+)$', target)
     if m_edges:
         return replay_edges(prop, res, f, repo, index, outbase, gen, sp, m_edges, max_n, timeout)
+    if target.startswith('getSubgraph_2_'):
+        return replay_free(prop, res, f, repo, index, outbase, gen, sp, target, max_n, timeout)
     info = classify(target)
     tent = index['functions'].get(target)
     if info is None or tent is None or tent.get('status') != 'ok' or target not in sp.contracts:
@@ -199,6 +201,86 @@ int main() {
     return found, header + '// result: %s\n/* output of the replay on the real code:\n%s\n*/\n%s' % (
         'FAILING INPUT FOUND (exit %d)' % code if found else 'no failing input among all graphs with <= %d vertices' % max_n,
         '\n'.join(out.strip().split('\n')[-20:]), src)
+
+
+FREE_CPP = {'getSubgraph': 'BaseGraph::algorithms::getSubgraph'}
+
+
+def replay_free(prop, res, f, repo, index, outbase, gen, sp, target, max_n, timeout):
+    """free function templates f(const Graph &graph, const std::unordered_set<VertexIndex> &vertices) -> Graph:
+    every small graph, every subset of 0..n (n itself is out of range), every pair of observation points"""
+    tent = index['functions'].get(target)
+    if tent is None or tent.get('status') != 'ok' or target not in sp.contracts or tent['name'] not in FREE_CPP:
+        return False, '// no native replay driver for %s\n' % target
+    ret, name, params = split_params(tent['sig'])
+    if len(params) != 2 or not params[1][0].replace('const ', '').strip().startswith('bg_uset_u'):
+        return False, '// no native replay rule for the signature of %s\n' % target
+    ginfo = classify(params[0][0].replace('const ', '').strip()[len('struct '):].rstrip('* ').strip() + '__x')
+    rinfo = classify(ret.replace('const ', '').strip()[len('struct '):] + '__x')
+    if ginfo is None or rinfo is None:
+        return False, '// no native replay rule for the signature of %s\n' % target
+    gname, sname = params[0][1], params[1][1]
+    cl = f.get('clause')
+    clauses = sp.contracts[target]
+    own = cl is not None and cl.get('fn') == target and cl.get('kind') == 'ensures'
+    oracle = [c for c in clauses if c.kind == 'ensures' and (c.src == cl['src'] if own else (c.enabled(prop) and '__CPROVER_is_fresh' not in c.expr))]
+    pre = [c for c in clauses if c.kind == 'requires' and c.enabled(prop)]
+    L = ['#include "native.hpp"', '#include "BaseGraph/algorithms/topology.hpp"', '#include "view.h"',
+         'typedef %s G;' % ginfo['graph'], 'typedef %s Abs;' % ginfo['abs'], 'typedef %s RG;' % rinfo['graph'],
+         'typedef %s RAbs;' % rinfo['abs'], 'typedef %s L;' % ginfo['cpplabel'],
+         '#define __CPROVER_is_fresh(p, n) 1', 'static const char *bg_failed = 0;',
+         'int main() {', '  long calls = 0; int rc = 0;', '  bg_install_handlers();',
+         '  enumerate_graphs<G, L>(%d, 2, %s, [&](const G &g0, const std::string &history) {' % (max_n, 'true' if ginfo['undirected'] else 'false'),
+         '    if (rc) return;', '    const int N = (int)g0.getSize();',
+         '    for (unsigned mask = 0; mask < (1u << (N + 1)); ++mask)',
+         '    for (VertexIndex p = 0; p <= (VertexIndex)N; ++p) for (VertexIndex q = 0; q <= (VertexIndex)N; ++q) {',
+         '      if (rc) continue;',
+         '      G_P = p; G_Q = q; bg_exc = 0; bg_scratch_row.valid = 0; bg_scratch_row.owner = 0; bg_cur_adj = 0; bg_ghost_frontier.a = 0;',
+         '      std::unordered_set<BaseGraph::VertexIndex> S; for (int v = 0; v <= N; ++v) if (mask >> v & 1) S.insert(v);',
+         '      bg_uset_u %s_abs = abs_set(S); const bg_uset_u *%s = &%s_abs;' % (sname, sname, sname),
+         '      Abs %s_abs; Cells<%s> %s_cells; alpha(g0, %s_abs, %s_cells); const Abs *%s = &%s_abs;' % (gname, ginfo['abslabel'], gname, gname, gname, gname, gname)]
+    for c in pre:
+        L.append('      if (!(%s)) continue; // requires %s' % (cpp_clause(c.expr, ginfo['label']), c.src))
+    L += ['      ++calls;',
+          '      snprintf(bg_last_input, sizeof bg_last_input, "%%s  then %s(g, subset mask %%u)  [G_P=%%u G_Q=%%u]", history.c_str(), mask, p, q);' % tent['name'],
+          '      RG real_ret(0); try { real_ret = %s(g0, S); } BG_CATCH_ALL' % FREE_CPP[tent['name']],
+          '      RAbs bg_ret; Cells<%s> ret_cells; alpha(real_ret, bg_ret, ret_cells);' % rinfo['abslabel']]
+    for c in oracle:
+        L.append('      if (!(%s)) bg_failed = "%s %s";' % (cpp_clause(c.expr, ginfo['label']), c.name, c.src))
+    L += ['      if (bg_failed) {',
+          '        printf("CLAUSE FALSE ON THE REAL CODE: %%s\\n  history: %%s\\n  call: %s(g, {members of mask %%u})  observed at G_P=%%u G_Q=%%u  exception code after call=%%d\\n", bg_failed, history.c_str(), mask, p, q, bg_exc);' % tent['name'],
+          '        rc = 1;', '      }', '    }', '  });', '  printf("%ld calls replayed\\n", calls);', '  return rc;', '}']
+    src = '\n'.join(L) + '\n'
+    cpp, exe = outbase + '.cpp', outbase + '.bin'
+    open(cpp, 'w').write(src)
+    cmd = ['g++', '-std=c++14', '-O1', '-w', '-fno-access-control', '-DBG_L=%s' % ginfo['label'], '-I', os.path.join(repo, 'include'),
+           '-I', os.path.join(ROOT, 'shim'), '-I', gen, '-I', os.path.join(ROOT, 'contracts'), '-I', HERE]
+    if not own:
+        cmd += ['-fsanitize=address,undefined', '-fno-sanitize-recover=all', '-D_GLIBCXX_DEBUG', '-D_GLIBCXX_ASSERTIONS', '-g']
+    cmd += [cpp, '-o', exe]
+    r = subprocess.run(cmd, stdout=subprocess.PIPE, stderr=subprocess.STDOUT, text=True)
+    header = '// native replay of %s\n// build: %s\n' % (f.get('key'), ' '.join(cmd).replace(gen, '<gen: bin/extract --out DIR>'))
+    if r.returncode != 0:
+        try:
+            os.remove(cpp)
+        except OSError:
+            pass
+        return False, header + '// replay did not compile:\n' + ''.join('// ' + l + '\n' for l in r.stdout.split('\n')[-30:]) + src
+    try:
+        r = subprocess.run([exe], stdout=subprocess.PIPE, stderr=subprocess.STDOUT, text=True, timeout=timeout,
+                           env=dict(os.environ, ASAN_OPTIONS='detect_leaks=0:handle_segv=0:handle_abort=0:handle_sigbus=0'))
+        out, code = r.stdout, r.returncode
+    except subprocess.TimeoutExpired:
+        out, code = 'TIMEOUT', 0
+    for pth in (exe, cpp):
+        try:
+            os.remove(pth)
+        except OSError:
+            pass
+    found = code != 0
+    return found, header + '// result: %s\n/* output of the replay on the real code:\n%s\n*/\n%s' % (
+        'FAILING INPUT FOUND (exit %d)' % code if found else 'no failing input among all graphs with <= %d vertices' % max_n,
+        '\n'.join(out.strip().split('\n')[-20:]).replace('*/', '* /'), src)
 
 
 def cpp_clause(expr, label):
